@@ -34,6 +34,8 @@ pub fn prop() -> HistProp {
 // ---------------------------------------------------------------------------------------------------------
 use super::{c20, hist};
 use crate::gen::Case;
+use crate::ops::Op;
+use crate::vol::VolCfg;
 use crate::run::{self, Report, Tier};
 
 pub fn run(tier: Tier, seed: u64) -> i32 {
@@ -53,6 +55,57 @@ pub fn run(tier: Tier, seed: u64) -> i32 {
         if let Some(b) = hist::pressure_block(&hp, seed, tier) {
             rep.add(b);
         }
+    }
+    // clusters given back and handed out again: a file emptied (or shortened, or removed) in one session, its clusters
+    // taken by another file in the next, then the first one written again - every write must land in clusters that
+    // are its own or free at that moment
+    if !rep.failed() {
+        let mut vols: Vec<VolCfg> = [1usize, 0, 8, 12, 3].iter().map(|p| VolCfg::from_preset(*p)).collect();
+        vols.push(VolCfg::from_gen_preset(0));
+        vols.push(VolCfg::from_gen_preset(5));
+        let hp_ref = &hp;
+        let b = run::run_indexed("freed_clusters_reused_by_another_file", (vols.len() * 3) as u64, |i, blk| {
+            let vol = &vols[i as usize / 3];
+            let variant = i % 3;
+            let cs = vol.cluster_size();
+            let of = |p: &str| Op::OpenFile { via: 0, path: p.into(), keep: 1 };
+            let mut ops = vec![
+                Op::CreateFile { via: 0, path: "first.bin".into(), keep: 1 },
+                Op::Write { h: 0, len: cs, seed: 1 },
+                Op::Write { h: 0, len: cs + 10, seed: 2 },
+                Op::CloseFile { h: 0 },
+                Op::CreateFile { via: 0, path: "other.bin".into(), keep: 1 },
+                Op::Write { h: 0, len: 10, seed: 3 },
+                Op::CloseFile { h: 0 },
+            ];
+            match variant {
+                0 => ops.extend([of("first.bin"), Op::Truncate { h: 0 }, Op::CloseFile { h: 0 }]),
+                1 => ops.extend([of("first.bin"), Op::Seek { h: 0, whence: 0, off: 5 }, Op::Truncate { h: 0 }, Op::CloseFile { h: 0 }]),
+                _ => ops.extend([Op::Remove { via: 0, path: "first.bin".into() }, Op::CreateFile { via: 0, path: "first.bin".into(), keep: 0 }]),
+            }
+            ops.extend([
+                Op::Remount { how: (variant % 2) as u8 },
+                Op::CreateFile { via: 0, path: "taker.bin".into(), keep: 1 },
+                Op::Write { h: 0, len: cs, seed: 4 },
+                Op::Write { h: 0, len: cs, seed: 5 },
+                Op::Write { h: 0, len: cs, seed: 6 },
+                Op::CloseFile { h: 0 },
+                of("first.bin"),
+                Op::Seek { h: 0, whence: 2, off: 0 },
+                Op::Write { h: 0, len: cs / 2, seed: 7 },
+                Op::Write { h: 0, len: cs, seed: 8 },
+                Op::CloseFile { h: 0 },
+                Op::Remount { how: 0 },
+                of("taker.bin"),
+                Op::Read { h: 0, len: 3 * cs },
+                Op::CloseFile { h: 0 },
+            ]);
+            let case = Case { vol: vol.clone(), ops };
+            let out = hist::eval_case(hp_ref, &case);
+            blk.record(&out, || serde_json::json!({"vol": vol, "variant": variant}));
+            out.violation.map(|m| run::Failure { message: m, case: serde_json::to_value(&case).unwrap(), kind: "history".into() })
+        });
+        rep.add(b);
     }
     if !rep.failed() {
         let mut lcs = c20::large_cfgs();
